@@ -28,6 +28,29 @@ def gen_cases(ck):
                            "c2s": sizes(), "s2c": sizes(),
                            "server_delay_ms": rng.choice([0, 0, 2, 10]), "client_delay_ms": rng.choice([0, 0, 2, 10]),
                            "from_fd": rng.random() < 0.5, "pipeline": rng.random() < 0.4})
+    # pipelined small messages of every size 1..N: the end of the queued data passes through every
+    # alignment relative to the write buffer's growth steps
+    for rt in ("tokio", "smol"):
+        intact.append({"id": len(intact), "runtime": rt, "kind": "intact", "conns": 1,
+                       "c2s": list(range(1, 420 if quick else 900)), "s2c": list(range(300, 1, -1)),
+                       "server_delay_ms": 0, "client_delay_ms": 0, "from_fd": False, "pipeline": True})
+    # ... and, deterministically, groups of three pipelined calls (the harness flushes every third)
+    # whose SECOND document ends exactly at the end of the write buffer (pos > 0, pos + len == cap)
+    def doc(size, idx):
+        return 62 + size + len(str(idx))
+    for rt in ("tokio", "smol"):
+        sizes, cap, idx = [], 256, 0
+        for g in range(25 if quick else 120):
+            s1 = rng.randrange(1, 200)
+            pos = doc(s1, idx) + 1
+            cap = max(cap, ((pos) // 256 + 1) * 256)
+            k = max(cap, ((pos + 70) // 256 + 1) * 256) + 256 * rng.randrange(0, 2)
+            s2 = k - pos - 62 - len(str(idx + 1))
+            sizes += [s1, s2, rng.randrange(1, 50)]
+            cap = max(cap, k + 256)
+            idx += 3
+        intact.append({"id": len(intact), "runtime": rt, "kind": "intact", "conns": 1, "c2s": sizes, "s2c": [5],
+                       "server_delay_ms": 0, "client_delay_ms": 0, "from_fd": False, "pipeline": True})
     n_c = 8 if quick else 60
     for i in range(n_c):
         for rt in ("tokio", "smol"):
@@ -38,6 +61,12 @@ def gen_cases(ck):
                            "after": [rng.randrange(1, 100) for _ in range(rng.randrange(1, 3))],
                            "timeout_ms": 80})
     return intact, cancel
+
+
+def gen_ids(ck):
+    quick = ck.tier == "quick"
+    return [{"id": 5000 + i, "runtime": rt, "kind": "ids", "threads": 8, "per_thread": 12000 if quick else 60000}
+            for i, rt in enumerate(("tokio", "smol"))]
 
 
 def render(c, r, step, limit):
@@ -99,6 +128,15 @@ def main():
         return [res.get(c["id"], {"id": c["id"], "crash": True}) for c in cases]
     ires = run(intact, 8)
     cres = run(cancel, 8)
+    idcases = [] if ck.replay else gen_ids(ck)
+    idres = run(idcases, 1)      # one at a time: each uses 8 threads itself
+    ids_created = 0
+    for c, r in zip(idcases, idres):
+        ids_created += r.get("created", 0)
+        if r.get("panic") or r.get("crash") or r.get("duplicates", 1) != 0:
+            ck.violation("connections created concurrently from %d threads (%s) did not all get distinct identifiers: "
+                         "%s duplicates among %s" % (c["threads"], c["runtime"], r.get("duplicates"), r.get("created")),
+                         {"case": c, "impl": r}, tag="ids%d" % c["id"])
     ck.ran_correspondence = True
     # ---- intact delivery: spec-level comparison (the theorem says the result does not depend on how
     # the kernel splits the writes, so there is no schedule to feed to the model)
@@ -158,7 +196,7 @@ def main():
         "traces_validated_against_impl": len(items),
         "intact_runs": len(intact), "messages_received_intact": msgs,
         "largest_message": max([max(c["c2s"] + c["s2c"]) for c in intact] or [0]),
-        "connection_ids_checked": sum(allids),
+        "connection_ids_checked": sum(allids), "connection_ids_created_concurrently": ids_created,
         "cancel_runs": len(cancel), "abandoned_after_partial_write": known,
         "abandoned_sends_completed_or_nothing_written": sum(1 for k, comp in ks if comp or k == 0),
         "runtimes": ["tokio", "smol"], "step": step, "production_limit": prod,
